@@ -338,6 +338,28 @@ pub fn deviations(step: usize, canon: &Value, client_id: &str, other_id: &str, t
                 push(format!("change:{}", pname), mk_request(sname, Some(p), flags), true);
             }
         }
+        // near misses: a float that differs in the tenth significant digit, an integer off by one in
+        // the other direction, a string that differs only in letter case
+        let near: Option<Value> = match &val {
+            Value::Number(n) if n.is_f64() => {
+                let f = n.as_f64().unwrap();
+                let g = if f == 0.0 { 1e-12 } else { f * (1.0 + 1e-10) };
+                // through the decoder's own text round trip, so that the request carries what is meant
+                let g: f64 = serde_json::from_str(&serde_json::to_string(&g).unwrap()).unwrap_or(g);
+                if g != f { Some(json!(g)) } else { None }
+            }
+            Value::Number(n) => Some(json!(n.as_i64().unwrap_or(0) - 1)),
+            Value::String(s) if s.chars().any(|c| c.is_ascii_alphabetic()) => {
+                let t: String = s.chars().map(|c| if c.is_ascii_lowercase() { c.to_ascii_uppercase() } else { c.to_ascii_lowercase() }).collect();
+                Some(json!(t))
+            }
+            _ => None,
+        };
+        if let Some(c) = near {
+            let mut p = canon.clone();
+            set_at(&mut p, &path, Some(c));
+            push(format!("near-miss:{}", pname), mk_request(sname, Some(p), flags), true);
+        }
         // retype
         let inside_object_any = pname.starts_with("mytype/object");
         for (tn, tv) in [("null", Value::Null), ("bool", json!(true)), ("int", json!(7)), ("float", json!(7.5)), ("string", json!("s")), ("array", json!([])), ("object", json!({}))] {
